@@ -938,6 +938,7 @@ fn check_c06_strings() {
     for t in ["18446744073709551615", "^18446744073709551615", "~1.18446744073709551615", ">1.18446744073709551615", "1 - 18446744073709551615", "=18446744073709551615", ">0.0.18446744073709551615", "<=18446744073709551615",
               "18446744073709551614.18446744073709551615.0", "900719925474099", "^900719925474099", "~900719925474099.900719925474099", ">900719925474099", "1 - 900719925474099", ">0.0.900719925474099",
               "|", "a|b", "1.2.3 | 2.x", "1.x ||| 2.x", "| |", "1.2.3 |", "|| 1.2.3", "1.2.3 ||", "||", " || ", "1.2.3-", "1.2.3+", "1.2.3-a..b", "1.2.3.4", "1.2.3 foo",
+              "1.2.3 \u{a9}", "1.2.3\t\u{a9}", ">=1 \u{a9}", "1.2.3 \u{a9} 2", "1 - \u{a9}", "\u{a9} - 1", "1.2.3 ||\u{a9}", "1.2.3 \u{1F600}", " \u{e9}", "\t\u{e9}x", "1.2.3  \u{e9}",
               "1.2.900719925474100", "1.2.99999999999999999999999", ">=1.2.99999999999999999999999", "1.2.3\n4.5.6", "\n\n1.2", "1.2.3-\u{e9}", ">=\u{e9}", "\u{1F600}", "1.2.3 - ", " - 1.2.3", "1.2.3 - 2.0.0 - 3"] { all.push(t.to_string()); }
     for t in &all {
         let r = catch_unwind(AssertUnwindSafe(|| {
@@ -1127,6 +1128,13 @@ fn check_c05(level: u32, seed: u64) {
         c05_one(t);
     }
     for n in [240usize, 249, 250, 251, 252, 256, 257] { c05_one(&format!("1.2.3-{}", "a".repeat(n))); c05_one(&format!("1.2.3{}", " ".repeat(n))); c05_one(&format!("{}1.2.3", " ".repeat(n))); c05_one(&format!("1.2.3+{}", "0.".repeat(n / 2))); }
+    // nothing longer than MAX_LENGTH is a version, whatever it is made of
+    for n in [257usize, 260, 300, 305, 1000] {
+        for fill in ["\n", " ", "\t", "a", "0", ".", "-", "+", "\u{e9}"] {
+            let tail = fill.repeat(n);
+            c05_one(&format!("1.2.3{}", tail)); c05_one(&format!("{}1.2.3", tail)); c05_one(&format!("1.2.3-{}", tail)); c05_one(&format!("1.2.3+{}", tail));
+        }
+    }
     // zero padded components of 15..40 digits in each position (a digit-count limit shows here), and numbers at and beyond the word sizes
     // whose low 64 / 32 bits are small (a truncating conversion shows here)
     for w in 15usize..=40 {
@@ -1201,6 +1209,7 @@ fn c12_one(t: &str) {
             if w.to_string() != p { report("C12", "the printed form is a fixed point", t.to_string(), format!("`{}` then `{}`", p, w)); }
         }
     }
+    #[cfg(feature = "serde")]
     match serde_json::to_string(&v) {
         Err(e) => report("C12", "serde: a version serialises", t.to_string(), e.to_string()),
         Ok(j) => {
@@ -1219,6 +1228,11 @@ fn check_c12(level: u32, seed: u64) {
               "900719925474099.900719925474099.900719925474099", "1.2.3-900719925474100", "1.2.3-18446744073709551615", "1.2.3-18446744073709551616", "1.2.3-00018446744073709551615", "1.2.3+99999999999999999999999999",
               "1.2.3-A.a.B.b", "1.2.3-rc1.RC1", "0.0.0-0", "0.0.0+0", "1.2.3-a+b+c", "1.2.3+a-b", "1.2.3-a-b+c-d"] {
         c12_one(t);
+    }
+    // identifiers that look like hashes, dates, uuids
+    for id in ["da39a3ee5e6b4b0d3255bfef95601890afd80709", "DA39A3EE5E6B4B0D3255BFEF95601890AFD80709", "0123456789abcdef0123456789abcdef01234567", "e3b0c44298fc1c149afbf4c8996fb92427ae41e4649b934ca495991b7852b855",
+               "20261002T093000Z", "550e8400-e29b-41d4-a716-446655440000", "1234567890123456789012345678901234567890", "abcdefghijklmnopqrstuvwxyzABCDEFGHIJKLMNOPQRSTUVWXYZ0123456789-"] {
+        c12_one(&format!("1.2.3+{}", id)); c12_one(&format!("1.2.3-{}", id)); c12_one(&format!("1.2.3-rc.{}+sha.{}", id, id));
     }
     // all-digit identifiers that do not fit u64 (kept as text), with and without leading zeros
     for big in ["18446744073709551616", "0018446744073709551616", "00099999999999999999999", "000000000000000000000000000000000001", "0000000000000000000000", "99999999999999999999999999999999999999999"] {
